@@ -249,7 +249,7 @@ def random_cases(rng, tier, count):
 
 
 def gen_cases(tier, rng):
-    cases = targeted_cases(rng, tier) + enum_cases(rng, tier) + random_cases(rng, tier, 220 if tier == "quick" else 6000)
+    cases = targeted_cases(rng, tier) + enum_cases(rng, tier) + random_cases(rng, tier, 1500 if tier == "quick" else 25000)
     return cases
 
 
@@ -277,29 +277,32 @@ def corpus_cases(props):
 
 # ----------------------------------------------------------------------------- running
 
+def _asan_env(fill):
+    """ASAN_OPTIONS of filecase with a chosen pattern for uninitialised heap memory (whole allocations)."""
+    return {"ASAN_OPTIONS": fc.ASAN_ENV["ASAN_OPTIONS"] + f":malloc_fill_byte={fill}:max_malloc_fill_size=268435456"}
+
+
 def write_all(cases, twice=False):
-    """Write every case (twice when asked) -> list of (Statuses, bytes | None[, Statuses2, bytes2 | None])."""
-    paths = [fc.tmppath() for _ in cases]
-    jobs = list(zip(cases, paths))
-    if twice:
-        paths2 = [fc.tmppath() for _ in cases]
-        jobs += list(zip(cases, paths2))
-    sts = fc.write_cases(jobs)
-    res = []
-    n = len(cases)
-    for i in range(n):
-        def rd(p, st):
+    """Write every case (twice when asked) -> list of (Statuses, bytes | None[, Statuses2, bytes2 | None]).
+    The second write runs in other processes (other addresses) and with another fill pattern for uninitialised
+    heap memory: a byte of the file that comes from uninitialised or address-dependent memory differs."""
+    def go(env):
+        paths = [fc.tmppath() for _ in cases]
+        sts = fc.write_cases(list(zip(cases, paths)), env=env)
+        out = []
+        for p, st in zip(paths, sts):
+            b = None
             if st.exists and os.path.exists(p):
                 b = Path(p).read_bytes()
+            if os.path.exists(p):
                 os.unlink(p)
-                return b
-            return None
-        a = rd(paths[i], sts[i])
-        if twice:
-            res.append((sts[i], a, sts[n + i], rd(paths2[i], sts[n + i])))
-        else:
-            res.append((sts[i], a))
-    return res
+            out.append((st, b))
+        return out
+    first = go(_asan_env(190))
+    if not twice:
+        return first
+    second = go(_asan_env(66))
+    return [(a, b, c, d) for (a, b), (c, d) in zip(first, second)]
 
 
 def schema_tuple(cols):
@@ -356,7 +359,14 @@ def c05_check(case, data):
         bad.append(("schema", f"schema differs: wrote {schema_tuple(case.schema.columns)} file says {ss}"))
     if pf.num_rows() != fc.table_rows(want):
         bad.append(("count_file_rows", f"num_rows {pf.num_rows()} but {fc.table_rows(want)} rows were written"))
+    cb = pf.meta.get("created_by") if pf.meta else None
+    cb = cb.decode("utf-8", "replace") if isinstance(cb, (bytes, bytearray)) else cb
+    want_cb = "Carquet" if (not case.options.created_by or case.options.null_options) else case.options.created_by
+    if cb != want_cb:
+        bad.append(("created_by", f"created_by {cb!r}, the options say {want_cb!r}"))
     codec_want = {"LZ4": "LZ4_RAW"}.get(case.options.codec, case.options.codec)
+    if case.options.null_options:
+        codec_want = "UNCOMPRESSED"
     for rg in pf.chunks:
         for ch in rg:
             if ch is not None and ch.meta is not None:
